@@ -47,6 +47,8 @@ impl StatementBatch {
                     if c.on.is_none() || &err.ecode == c.on.as_ref().unwrap() {
                         task.set_data_with(|data| data.set(consts::IS_CATCH_PROCESSED, true));
                         task.set_state(TaskState::Running);
+                        // the catching task runs again, save the new state
+                        ctx.runtime.scher().emit_task_event(&task)?;
 
                         let children = task.node().children_in(NodeOutputKind::Catch, c.on.clone());
 
